@@ -33,3 +33,22 @@ Qed.
    not survive (the reason for the refusal; before the fix it was written) *)
 Lemma invalid_utf8_json_lossy : exists s, valid_utf8 s = false /\ json_unquote (json_quote s) <> Some s.
 Proof. exists [114; 255; 116]. split; [reflexivity|]. vm_compute. discriminate. Qed.
+
+(* Put -> bytes -> Get: the JSON text PutCredential produces for an accepted
+   credential parses back (parse_fresh = what json.Unmarshal into AuthConfig
+   finds) to the entry, and so to the credential *)
+Lemma entry_bytes_roundtrip a c :
+  put_accepts a c = true -> bytes (c_user c ++ colon :: c_pass c) ->
+  parse_fresh (entry_bytes b64_encode c) =
+    Some (encode_auth b64_encode (c_user c) (c_pass c), c_refresh c, c_access c) /\
+  cred_of_bytes b64_decode (entry_bytes b64_encode c) = RCred c.
+Proof.
+  intros ACC B. destruct (put_accepts_valid a c ACC) as (_ & VR & VT).
+  assert (P : parse_fresh (entry_bytes b64_encode c) =
+              Some (encode_auth b64_encode (c_user c) (c_pass c), c_refresh c, c_access c)).
+  { unfold entry_bytes. apply fresh_roundtrip; [now apply encode_auth_valid|exact VR|exact VT]. }
+  split; [exact P|]. unfold cred_of_bytes. rewrite P.
+  pose proof (codec_roundtrip b64_encode b64_decode bytes b64_roundtrip b64_encode_nonempty c
+                              (put_accepts_colon a c ACC) B) as CR.
+  exact CR.
+Qed.
